@@ -59,7 +59,17 @@ func c06Dump() string {
 // Caller.exec and the goroutines it spawns, AddTmp's wrapper and deadline goroutine,
 // RunHandlers?  Exact, and independent of how many other goroutines the process has.
 func c06DispatchBusy(dump string) bool {
-	return strings.Contains(dump, "girc.(*Caller).") || strings.Contains(dump, "girc.(*Client).RunHandlers")
+	for _, g := range strings.Split(dump, "\n\n") {
+		// handleConnect, the library's background handler of 001, sleeps two seconds before it
+		// announces CONNECTED: nothing a scenario waits for
+		if strings.Contains(g, "girc.handleConnect") {
+			continue
+		}
+		if strings.Contains(g, "girc.(*Caller).") || strings.Contains(g, "girc.(*Client).RunHandlers") {
+			return true
+		}
+	}
+	return false
 }
 
 var (
